@@ -2,6 +2,7 @@ package main
 
 import (
 	"fmt"
+	"strings"
 	"time"
 
 	"gfverif/world"
@@ -11,12 +12,12 @@ func init() {
 	specialWorkers["C19"] = c19Worker
 	specialFails["C19"] = func(c Candidate) func(vals []uint64) (bool, *world.RunResult) {
 		return func(vals []uint64) (bool, *world.RunResult) {
-			r, fp, _ := c19Pair("C19", c.Seed, c.Variant, vals)
+			r, fp, _ := c19Pair(c19ProfileOf(c.Fingerprint), c.Seed, c.Variant, vals)
 			return fp == c.Fingerprint, r
 		}
 	}
 	specialReplays["C19"] = func(rf *ReplayFile, path string, quiet bool) int {
-		r, fp, msg := c19Pair("C19", rf.Seed, rf.Variant, rf.Tape)
+		r, fp, msg := c19Pair(c19ProfileOf(rf.Fingerprint), rf.Seed, rf.Variant, rf.Tape)
 		if !quiet {
 			for _, l := range r.Describe(0) {
 				fmt.Println(l)
@@ -32,6 +33,13 @@ func init() {
 	propMetas["C19"] = propMeta{Level: "exploration",
 		Rule:        "one case = a pair of twin worlds executed from one tape (same schedule, faults, clock/UUID/random streams) that differ only in the path and display of every contact/message/call URN (same scheme and country); compared per engine call: outcome, path taken, events minus fields that are URNs by contract, a full recursive walk of Session.CurrentContext() rendered to text/format/JSON, and ~70 templates over it; non-trivial = >= 2 engine calls; distinct = distinct behaviour signature. Every 4th pair runs WITHOUT the policy and must differ somewhere (built-in sensitivity check)",
 		Assumptions: []string{"fields that carry URNs by contract (msg.urn, contact_urns_changed.urns, embedded contacts and run summaries, airtime sender/recipient) are projected away by an explicit list", "simulated remote servers answer as a function of (fault plan, request ordinal, host+path with digits masked), never of request contents, so both twins see the same world"}}
+}
+
+func c19ProfileOf(fingerprint string) string {
+	if strings.HasPrefix(fingerprint, "C19.twin-differs-after-policy-on/") {
+		return "C19f"
+	}
+	return "C19"
 }
 
 // c19Pair runs the twin pair and returns world A's result and the fingerprint/message of
@@ -53,6 +61,20 @@ func c19Pair(profile string, seed uint64, variant string, vals []uint64) (*world
 			return ra, v.Fingerprint, v.Msg
 		}
 	}
+	if profile == "C19f" {
+		// the policy is switched on during the run: the twins may differ before that (and whatever
+		// differed is stored data), but a pair that was identical until the policy came on must stay so
+		label, detail, judged := la.FirstDiffUnderPolicy(lb)
+		ra.Stats.Probes["c19f_pair"]++
+		ra.Stats.Probes["c19f_calls_judged_under_policy_switched_on"] += judged
+		if judged > 0 {
+			ra.Stats.Probes["c19f_pair_with_judged_calls"]++
+		}
+		if label == "" {
+			return ra, "", ""
+		}
+		return ra, "C19.twin-differs-after-policy-on/" + world.LabelClass(label), fmt.Sprintf("after the redaction policy was switched on, twin worlds that differ only in URN paths/displays ran a sprint from the same stored state and input (URN-by-contract fields aside) and differ at %s (world A vs world B): %s", label, detail)
+	}
 	label, detail := la.FirstDiff(lb)
 	if label == "" {
 		return ra, "", ""
@@ -73,6 +95,8 @@ func c19Worker(prop, tier string, seed uint64, from, to, stride int, deadline in
 		profile := "C19"
 		if i%4 == 3 {
 			profile = "C19n"
+		} else if i%4 == 1 {
+			profile = "C19f"
 		}
 		r, fp, msg := c19Pair(profile, s, variant, nil)
 		res.Runs++
